@@ -217,6 +217,9 @@ def finish(prop: str, mod, tier: str, seed: int, cases: list, records: list, t0:
     if ts:
         cov["case_seconds"] = {"sum": round(sum(ts), 1), "median": round(ts[len(ts) // 2], 2),
                                "p95": round(ts[int(len(ts) * 0.95)], 2), "max": round(ts[-1], 2)}
+    slow = sorted(records, key=lambda r: -float(r.get("t", 0.0)))[:3]
+    cov["slowest_cases"] = [{"case_id": r.get("case_id"), "seconds": r.get("t"), "status": r.get("status"),
+                             "cls": r.get("cls"), "reason": r.get("reason")} for r in slow]
     agg = getattr(mod, "aggregate", None)
     if agg:
         try:
